@@ -5,9 +5,10 @@ usage: import_seed.py C08 1 [--needs "..."]"""
 import json, os, shutil, subprocess, sys, time
 
 prop, k = sys.argv[1], sys.argv[2]
-wt = f"/tmp/wt/{prop}"
+# optional: worktree directory and the number to store the change under (second round: R2-<prop>, numbers 4..6)
+wt = sys.argv[3] if len(sys.argv) > 3 else f"/tmp/wt/{prop}"
 seed = f"{wt}/_seed"
-sid = f"{prop}-{k}"
+sid = f"{prop}-{sys.argv[4] if len(sys.argv) > 4 else k}"
 dst = f"/verif/seeded/{sid}"
 env = {**os.environ, "PYTHONPATH": f"{wt}/src"}
 
@@ -61,7 +62,7 @@ meta = {
     "property": prop,
     "id": sid,
     "files": files,
-    "origin": "independent sub-agent given only the property text and a scratch worktree",
+    "origin": "independent sub-agent given only the property text and a scratch worktree" + (" (second round)" if len(sys.argv) > 4 else ""),
     "needs_to_manifest": "see notes.md",
     "confirmed": {
         "how": f"scratch worktree {wt} at /repo HEAD: demo on the clean tree, `git apply`, demo again, `git checkout -- .`"
